@@ -159,6 +159,60 @@ def _seeded_job(args):
         shutil.rmtree(d, ignore_errors=True)
 
 
+def _benign_patch_job(args):
+    """a behaviour-preserving refactoring written by an independent agent (benign/<id>/patch.diff): the check must stay silent"""
+    pid, bdir, base_keys, src_repo = args
+    import subprocess
+    d = tempfile.mkdtemp(prefix='vsa_bp_')
+    try:
+        copy_py_tree(src_repo, d)
+        r = subprocess.run(['git', 'apply', '--unsafe-paths', '--directory=' + d, os.path.join(bdir, 'patch.diff')], cwd=d, capture_output=True, text=True)
+        if r.returncode != 0:
+            r = subprocess.run(['patch', '-p1', '-s', '-i', os.path.join(bdir, 'patch.diff')], cwd=d, capture_output=True, text=True)
+        if r.returncode != 0:
+            return {'patch': os.path.basename(bdir), 'status': 'skipped', 'why': 'patch does not apply to the current tree'}
+        with contextlib.redirect_stdout(io.StringIO()):
+            res = run_rules(pid, d)
+        extra = [k for k in res['keys'] if k not in base_keys]
+        missing = [k for k in base_keys if k not in res['keys']]
+        if res['error'] or res['floor'] or extra or missing:
+            return {'patch': os.path.basename(bdir), 'status': 'FALSE-ALARM', 'extra': extra[:3], 'missing': missing[:3], 'error': res['error'], 'floor': res['floor']}
+        return {'patch': os.path.basename(bdir), 'status': 'silent'}
+    finally:
+        shutil.rmtree(d, ignore_errors=True)
+
+
+def benign_patches():
+    from . import VERIF
+    root = os.path.join(VERIF, 'benign')
+    if not os.path.isdir(root):
+        return []
+    return [os.path.join(root, n) for n in sorted(os.listdir(root)) if os.path.exists(os.path.join(root, n, 'patch.diff'))]
+
+
+def _history_job(args):
+    """the rules must report the defect on the tree just BEFORE its repair (the `fixed` entries of known_findings.json)"""
+    pid, entry, base_keys, src_repo = args
+    import subprocess
+    keys = re.findall(r'(C\d\d-D\w+\|[^|,;()]+\|[A-Za-z0-9_\-\[\]:.]+)', entry.get('what', ''))
+    constructs = {k.split('|')[1].split('[')[0] for k in keys}
+    d = tempfile.mkdtemp(prefix='vsa_hx_')
+    try:
+        r = subprocess.run(['git', '-C', src_repo, 'archive', entry['commit'] + '~1', 'thermosteam'], capture_output=True)
+        if r.returncode != 0:
+            return {'commit': entry['commit'], 'status': 'skipped', 'why': 'git archive failed (no history available)'}
+        subprocess.run(['tar', '-x', '-C', d], input=r.stdout, check=True)
+        with contextlib.redirect_stdout(io.StringIO()):
+            res = run_rules(pid, d)
+        if res['error']:
+            return {'commit': entry['commit'], 'status': 'analysis-error', 'detail': res['error'][:200]}
+        new = [k for k in res['keys'] if k not in base_keys]
+        hit = [k for k in new if any(c in k for c in constructs)]
+        return {'commit': entry['commit'], 'status': 'reported' if hit else 'NOT-REPORTED', 'finding': (hit or new)[:2]}
+    finally:
+        shutil.rmtree(d, ignore_errors=True)
+
+
 def seeded_for(pid):
     from . import VERIF
     out = []
@@ -237,10 +291,14 @@ def run_for(pid, seed=0, repo=None, workers=None, variants=('unparse', 'unparse+
     workers = workers or min(16, max(1, len(jobs) + len(bjobs)))
     results, benign = [], []
     sjobs = [(pid, sd, base_keys, repo) for sd in seeded_for(pid)]
+    from . import report as _report
+    hjobs = [(pid, e, base_keys, repo) for e in _report.load_known().get('fixed', []) if e.get('property') == pid]
     with ProcessPoolExecutor(max_workers=workers) as ex:
         fm = list(ex.map(_mutant_job, jobs))
         fb = list(ex.map(_benign_job, bjobs))
         fs = list(ex.map(_seeded_job, sjobs))
+        fh = list(ex.map(_history_job, hjobs))
+        fp = list(ex.map(_benign_patch_job, [(pid, bd, base_keys, repo) for bd in benign_patches()]))
     results, benign = fm, fb
     killed = [r for r in results if r['status'].startswith('killed')]
     survived = [r for r in results if r['status'] == 'SURVIVED']
@@ -252,11 +310,18 @@ def run_for(pid, seed=0, repo=None, workers=None, variants=('unparse', 'unparse+
         'benign_details': benign,
         'seeded_total': len(fs), 'seeded_detected': sum(1 for x in fs if x['status'] in ('detected', 'silent-as-expected')), 'seeded_details': fs,
         'mutant_details': results,
+        'refactorings_total': len(fp), 'refactorings_silent': sum(1 for x in fp if x['status'] == 'silent'), 'refactoring_details': [x for x in fp if x['status'] != 'silent'],
+        'history_total': len(fh), 'history_reported': sum(1 for x in fh if x['status'] == 'reported'), 'history_details': fh,
     }
     print('selftest %s: %d/%d mutants killed, %d survived %s, %d skipped; benign variants silent %d/%d'
           % (pid, len(killed), len(results), len(survived), [r['name'] for r in survived], len(skipped), out['benign_silent'], len(benign)))
     if fs:
         print('  seeded defects attributed to %s: %d/%d detected %s' % (pid, out['seeded_detected'], len(fs), [x['seed'] + ':' + x['status'] for x in fs if x['status'] != 'detected']))
+    if fp:
+        print('  agent-written refactorings: silent on %d/%d %s' % (out['refactorings_silent'], len(fp), [x['patch'] + ':' + x['status'] for x in fp if x['status'] != 'silent']))
+    if fh:
+        print('  repaired defects of %s re-detected on the tree before their repair: %d/%d %s' % (
+            pid, out['history_reported'], len(fh), [x['commit'] + ':' + x['status'] for x in fh if x['status'] != 'reported']))
     for b in benign:
         if not b['silent']:
             print('  benign variant %s NOT silent: extra=%s missing=%s error=%s floor=%s' % (b['variant'], b['extra'][:3], b['missing'][:3], b['error'], b['floor']))
